@@ -1,7 +1,9 @@
 package main
 
 import (
+	"context"
 	"sync"
+	"time"
 
 	"github.com/high-moctane/mocrelay"
 	mprom "github.com/high-moctane/mocrelay/middleware/prometheus"
@@ -233,10 +235,98 @@ func execPromConc(sessions [][]promStep) {
 	emit(line)
 }
 
+// raceInner: an inner handler that swallows client messages and emits CLOSED for the id it is told on `trig`
+type raceInner struct{ trig chan string }
+
+func (h *raceInner) ServeNostr(ctx context.Context, send chan<- mocrelay.ServerMsg, recv <-chan mocrelay.ClientMsg) error {
+	for {
+		select {
+		case <-ctx.Done():
+			return ctx.Err()
+		case _, ok := <-recv:
+			if !ok {
+				return nil
+			}
+		case id := <-h.trig:
+			select {
+			case send <- mocrelay.NewServerClosedMsg(id, "", "bye"):
+			case <-ctx.Done():
+				return ctx.Err()
+			}
+		}
+	}
+}
+
+// execPromCloseRace: within ONE session, many times: REQ x, then the client's CLOSE x and the server's CLOSED x for
+// that subscription at the same moment (they travel on the middleware's two goroutines).  Whatever the order, the
+// subscription is closed once, so at the quiescent point after the trials the subscription gauge must read 0.
+func execPromCloseRace(trials int) {
+	reg := prometheus.NewRegistry()
+	inner := &raceInner{trig: make(chan string)}
+	h := promHandler(reg)(inner)
+	ctx, cancel := context.WithCancel(context.Background())
+	send := make(chan mocrelay.ServerMsg, 16)
+	recv := make(chan mocrelay.ClientMsg)
+	done := make(chan error, 1)
+	go func() { done <- h.ServeNostr(ctx, send, recv) }()
+	stalled := false
+	push := func(m mocrelay.ClientMsg) {
+		select {
+		case recv <- m:
+		case <-time.After(5 * time.Second):
+			stalled = true
+		}
+	}
+	for i := 0; i < trials && !stalled; i++ {
+		id := "x" + itoa(i)
+		push(&mocrelay.ClientReqMsg{SubscriptionID: id, ReqFilters: []*mocrelay.ReqFilter{{}}})
+		var wg sync.WaitGroup
+		var gate sync.WaitGroup
+		gate.Add(1)
+		wg.Add(2)
+		go func() { defer wg.Done(); gate.Wait(); push(&mocrelay.ClientCloseMsg{SubscriptionID: id}) }()
+		go func() {
+			defer wg.Done()
+			gate.Wait()
+			select {
+			case inner.trig <- id:
+			case <-time.After(5 * time.Second):
+				stalled = true
+			}
+		}()
+		gate.Done()
+		wg.Wait()
+		// the CLOSED comes out on the client side: wait for it, then both paths are through
+		select {
+		case <-send:
+		case <-time.After(5 * time.Second):
+			stalled = true
+		}
+	}
+	// one more round trip on the client path so that the last CLOSE is fully processed
+	push(&mocrelay.ClientCloseMsg{SubscriptionID: "__sync"})
+	push(&mocrelay.ClientCloseMsg{SubscriptionID: "__sync2"})
+	mid := gather(reg)
+	cancel()
+	select {
+	case <-done:
+	case <-time.After(5 * time.Second):
+		stalled = true
+	}
+	line := M{"op": "promrace", "trials": trials, "out": M{"mid": mid, "end": gather(reg), "stalled": stalled}}
+	if raceSeen() {
+		line["race"] = true
+	}
+	emit(line)
+}
+
 func init() {
 	props["C19"] = propRunner{
 		gen: func(r *Rng, n int, tier string) {
 			g := &EvGen{r: r}
+			for k := 0; k < 4; k++ {
+				execPromCloseRace(10000)
+			}
 			for i := 0; i < n && mwStalls < 4; i++ {
 				ns := r.Range(1, 3)
 				sessions := make([][]promStep, ns)
@@ -275,6 +365,12 @@ func init() {
 		replay: func(lines []replayLine) {
 			// replay re-executes the recorded per-session message lists in the recorded mode
 			for _, l := range lines {
+				if l["op"] == "promrace" {
+					for k := 0; k < 8; k++ { // a race: the replay repeats the scenario
+						execPromCloseRace(int(jnum(l["trials"])))
+					}
+					continue
+				}
 				if l["op"] != "prom" {
 					continue
 				}
